@@ -168,10 +168,12 @@ def run_apalache(module_path, init, inv, length=1, timeout=600):
     """apalache-mc check on a typed wrapper module (spec/apalache/*.tla).  Returns "ok", "error" (invariant refuted)
     or "unavailable: ..." - the caller decides what each outcome means."""
     out_dir = os.path.join(WORKROOT, "apalache-%d" % os.getpid())
+    os.makedirs(out_dir, exist_ok=True)
+    env = dict(os.environ, TMPDIR=out_dir)      # (the apalache-mc wrapper makes a SANY* directory with mktemp -t per run)
     try:
         p = subprocess.run(["apalache-mc", "check", "--init=" + init, "--inv=" + inv, "--length=%d" % length,
                             "--out-dir=" + out_dir, module_path], stdout=subprocess.PIPE, stderr=subprocess.STDOUT,
-                           text=True, timeout=timeout, cwd=WORKROOT)
+                           text=True, timeout=timeout, cwd=WORKROOT, env=env)
     except (OSError, subprocess.TimeoutExpired) as e:
         shutil.rmtree(out_dir, ignore_errors=True)
         return "unavailable: %s" % type(e).__name__
